@@ -135,9 +135,10 @@ class PlanJoinTablesQuery:
 
         # try to use default namespace
         integration = self.planner.default_namespace
-        if len(table.parts) > 0:
-            if table.parts[0] in self.planner.databases:
-                integration = table.parts.pop(0)
+        if len(table.parts) > 1:
+            # same rule as QueryPlanner.resolve_database_table: case-insensitive, never empties the name
+            if table.parts[0].lower() in self.planner.databases:
+                integration = table.parts.pop(0).lower()
             else:
                 integration = self.planner.default_namespace
 
